@@ -16,6 +16,8 @@ pub enum Act {
   Sub(usize),
   Emit(usize, Ev),
   Unsub(usize),
+  /// the subscription was wrapped in utils::Using; drop the guard
+  UsingDrop(usize),
 }
 
 #[derive(Clone, Debug)]
@@ -34,6 +36,7 @@ impl Case {
       .map(|(i, s)| match s {
         SrcKind::Hot => format!("s{}=hot", i),
         SrcKind::Subject => format!("s{}=Subject", i),
+        SrcKind::Lib(l) => format!("s{}={:?}", i, l),
         SrcKind::Endless(v) => format!("s{}=endless({})", i, v),
         SrcKind::Cold { scripts, polite } => format!(
           "s{}={}cold[{}]",
@@ -49,6 +52,7 @@ impl Case {
       .map(|a| match a {
         Act::Sub(r) => format!("sub#{}", r),
         Act::Unsub(r) => format!("unsub#{}", r),
+        Act::UsingDrop(r) => format!("drop-using#{}", r),
         Act::Emit(i, e) => format!("s{}!{}", i, e.show()),
       })
       .collect();
@@ -92,6 +96,9 @@ impl RealSrc {
     if *kind == SrcKind::Subject {
       return self.subject.observable();
     }
+    if let SrcKind::Lib(l) = kind {
+      return lib_observable(l, &self.err_addrs);
+    }
     let (obs, addrs, emitted, toks) =
       (self.observers.clone(), self.err_addrs.clone(), self.emitted.clone(), self.toks.clone());
     let kind = kind.clone();
@@ -103,7 +110,7 @@ impl RealSrc {
         o.len() - 1
       };
       match &kind {
-        SrcKind::Hot | SrcKind::Subject => {}
+        SrcKind::Hot | SrcKind::Subject | SrcKind::Lib(_) => {}
         SrcKind::Endless(v) => {
           let mut n = 0;
           while s.is_subscribed() && n < ENDLESS_CAP {
@@ -153,6 +160,27 @@ impl RealSrc {
   fn alive(&self) -> Vec<bool> {
     let os: Vec<Observer<'static, V>> = self.observers.lock().unwrap().clone();
     os.iter().map(|o| o.is_subscribed()).collect()
+  }
+}
+
+fn lib_observable(l: &LibSrc, addrs: &Arc<Mutex<Vec<(i64, usize)>>>) -> Observable<'static, V> {
+  use LibSrc::*;
+  let addrs = addrs.clone();
+  match l.clone() {
+    Just(v) => observables::just(V::int(v)),
+    FromIter(v) => observables::from_iter(v.into_iter().map(V::int)),
+    Range(a, k) => observables::range(a, k).map(V::int),
+    Empty => observables::empty(),
+    Never => observables::never(),
+    Error(k) => observables::error(mk_err(k, &addrs)),
+    DeferJust(v) => observables::defer(move || observables::just(V::int(v))),
+    DeferError(k) => observables::defer(move || observables::error(mk_err(k, &addrs))),
+    Start(v) => observables::start(move || V::int(v)),
+    FromResultOk(v) => observables::from_result(Ok::<V, Payload>(V::int(v))),
+    FromResultErr(k) => observables::from_result(Err::<V, Payload>(Payload(k))),
+    RepeatTake(v, n) => observables::repeat(V::int(v)).take(n),
+    SomethingSuccess(v) => utils::Something::success(V::int(v)).proceed(),
+    SomethingError(k) => utils::Something::<V>::error(mk_err(k, &addrs)).proceed(),
   }
 }
 
@@ -324,6 +352,32 @@ pub fn run_real(case: &Case, opts: &RunOpts) -> Trace {
   let r = catch_unwind(AssertUnwindSafe(|| {
     let env = Env {
       srcs: srcs.iter().zip(case.srcs.iter()).map(|(s, k)| s.observable(k)).collect(),
+      push: srcs
+        .iter()
+        .zip(case.srcs.iter())
+        .map(|(s, k)| {
+          let (subject, observers, toks, addrs, is_subject) = (s.subject.clone(), s.observers.clone(), s.toks.clone(), s.err_addrs.clone(), *k == SrcKind::Subject);
+          let f: Arc<dyn Fn(&Ev) + Send + Sync> = Arc::new(move |ev: &Ev| {
+            if is_subject {
+              match ev {
+                Ev::N(d) => subject.next(V { d: d.clone(), tok: Some(toks.take("item")) }),
+                Ev::E(k) => subject.error(mk_err(*k, &addrs)),
+                Ev::C => subject.complete(),
+              }
+            } else {
+              let os: Vec<Observer<'static, V>> = observers.lock().unwrap().clone();
+              for o in os {
+                match ev {
+                  Ev::N(d) => o.next(V { d: d.clone(), tok: Some(toks.take("item")) }),
+                  Ev::E(k) => o.error(mk_err(*k, &addrs)),
+                  Ev::C => o.complete(),
+                }
+              }
+            }
+          });
+          f
+        })
+        .collect(),
       toks: toks.clone(),
       tap_log: tap_log.clone(),
     };
@@ -344,6 +398,12 @@ pub fn run_real(case: &Case, opts: &RunOpts) -> Trace {
         Act::Unsub(r) => {
           if let Some(s) = &subs[*r] {
             s.unsubscribe()
+          }
+        }
+        Act::UsingDrop(r) => {
+          if let Some(s) = &subs[*r] {
+            let guard = utils::Using::new(s.clone());
+            drop(guard);
           }
         }
       }
@@ -401,7 +461,7 @@ pub fn run_ref(case: &Case) -> Trace {
     match act {
       Act::Sub(r) => roots[*r] = Some(w.subscribe_root(&case.pipeline, rec_id(*r))),
       Act::Emit(i, ev) => w.hot_emit(*i, ev.clone()),
-      Act::Unsub(r) => {
+      Act::Unsub(r) | Act::UsingDrop(r) => {
         if let Some(id) = roots[*r] {
           w.unsubscribe_root(id)
         }
